@@ -1,6 +1,6 @@
 #!/bin/bash
 # Replays every seeded change under /verif/seeded/<name>/patch.diff on a scratch worktree of /repo HEAD and prints
-# which checks report a violation. Not part of any check's exit code. usage: scripts/selftest.sh [name...]
+# which checks report a violation (one program load per change: `hsverif matrix`). Not part of any check's exit code. usage: scripts/selftest.sh [name...]
 set -uo pipefail
 HERE="$(cd "$(dirname "$0")/.." && pwd)"
 . "$HERE/scripts/env.sh"
@@ -15,11 +15,7 @@ for n in "${names[@]}"; do
   if ! git -C "$wt" apply "$d/patch.diff" 2>/dev/null; then echo "$n: PATCH DOES NOT APPLY"; git -C "$REPO_DIR" worktree remove --force "$wt"; continue; fi
   prop="$(python3 -c "import json;print(json.load(open('$d/meta.json'))['property'])" 2>/dev/null)"
   OUT="$(mktemp -d /tmp/hsverif-self.XXXXXX)"; cp "$HERE/known_findings.json" "$OUT/"
-  fired=""
-  for p in ${SELFTEST_PROPS:-$ALL}; do
-    out="$("$HERE/bin/hsverif" check "$p" quick -repo "$wt" -root "$OUT" 2>/dev/null)"
-    case "$out" in *"VIOLATION property="*) fired="$fired $p";; esac
-  done
+  fired="$("$HERE/bin/hsverif" matrix -repo "$wt" -root "$OUT" 2>/dev/null | sed -n 's/^FIRING://p')"
   own="MISSED"; case " $fired " in *" $prop "*) own="caught";; esac
   echo "$n: breaks $prop -> $own by own check; all firing checks:${fired:- none}"
   rm -rf "$OUT"; git -C "$REPO_DIR" worktree remove --force "$wt"
